@@ -34,15 +34,14 @@ PROPS = {
     },
     "C09": {
         "modules": ["Ark.Props.C09"],
-        "claimed": False,
         "rule": "one op line per (type, mode, value) round trip or uniqueness probe; distinct = distinct op line; non-trivial = value outside {0,1}",
         "exhaustive": ["every byte string of the serialized size for the toy fields and toy curves"],
         "partial": [],
+        "partial": ["compressed point round trip over the executable prime-field dictionary takes correctness of the square root (SqrtOK; Tonelli-Shanks is proved in C11 over Mathlib fields) and, for twisted Edwards, of modular inversion (Spec.modInv) as explicit hypotheses; not proved for the Fp2 dictionary (G2): there the compressed round trip is covered by the correspondence only"],
         "assumptions": ["the ZCash format of the bls12_381 curve crate is not modelled (ark_test_curves does not override serialization)"],
     },
     "C10": {
         "modules": ["Ark.Props.C10"],
-        "claimed": False,
         "rule": "one op line per (type, mode, validate, byte string) deserialization; distinct = distinct op line; non-trivial = non-empty byte string",
         "exhaustive": ["every byte string of the serialized size (and all truncations) for the toy fields and toy curves"],
         "partial": [],
